@@ -88,6 +88,28 @@ CHECKS = {
             'deterministic simulation: message-history + validator-completion '
             'interleaving search against a reference authentication model',
             'DESIGN.md 4 C05'),
+    'C06': ('c06_phase',
+            'asyncssh in either role runs the normal dialogue with RefPeer '
+            '(independent implementation holding the keys), which injects one '
+            'or two correctly framed messages of drawn type 1..100 and shape '
+            '(well-formed, empty, random, truncated, trailing) before a drawn '
+            'one of its own messages, with strict KEX advertised or not and '
+            'optionally without the sequence reset it advertised. '
+            'Differential oracle against the injection-free run of the same '
+            'plan: unless the message is in phase for that role, the asyncssh '
+            'owner must get connection_lost with an error or the observable '
+            'outcome must equal the baseline; under strict KEX anything '
+            'injected before the first NEWKEYS must be fatal; no '
+            'auth_completed without a request outstanding; a missing sequence '
+            'reset must be fatal. Cells (role, position, type, shape, strict) '
+            'reached are reported as abstract states.',
+            COMMON_NOTE + ' Re-key messages are injected only before the '
+            'first NEWKEYS (afterwards they are a legal re-exchange); a '
+            'banner after authentication is not treated as covered by the '
+            'statement.',
+            'deterministic simulation: message-injection fault grid by an '
+            'independent peer, differential oracle vs. fault-free run',
+            'DESIGN.md 4 C06'),
     'C07': ('c07_channel_data',
             'Seeded exploration of multi-channel write/read/pause programs on '
             'a real asyncssh client/server pair under a scheduler that owns '
